@@ -65,7 +65,7 @@ class DocGen:
     def __init__(self, rng, *, sets=True, anchors=True, nonascii=False,
                  max_nodes=20, max_depth=4, floats=True, multiline=False,
                  empty_containers=True, mergekeys=False, twins=0.0,
-                 special=False, intkeys=False):
+                 special=False, intkeys=False, rich_merge_sources=False):
         self.rng = rng
         self.sets = sets
         self.anchors = anchors
@@ -79,6 +79,10 @@ class DocGen:
         self.twins = twins
         self.special = special
         self.intkeys = intkeys
+        # merge-key sources may hold anchored scalars, sets and empty
+        # containers (read-only consumers; the edit-session model wants
+        # plain ones)
+        self.rich_merge_sources = rich_merge_sources
         self.budget = max_nodes
         self.defined = []       # scalar anchors defined so far (doc order)
         self.map_anchors = []   # map anchors (merge-key sources)
@@ -168,11 +172,29 @@ class DocGen:
         if merge:
             node["merge"] = merge
         if self.mergekeys and depth > 0 and items and self.free_anchors \
-                and rng.random() < 0.2 \
-                and all(v["t"] == "s" and not v["a"] for _, v in items):
+                and rng.random() < (0.45 if self.rich_merge_sources
+                                    else 0.2) \
+                and all((v["t"] == "s" and not v["a"])
+                        or (self.rich_merge_sources
+                            and (v["t"] in ("s", "S") or not v.get("i")))
+                        for _, v in items):
             name = self.free_anchors.pop(0)
             node["a"] = name
             self.map_anchors.append(name)
+            if self.rich_merge_sources and rng.random() < 0.7:
+                # a pair that consumers receive only through the merge and
+                # whose value is not a plain JSON scalar
+                used = {k["v"] for k, _v in items}
+                extra = rng.choice(["flag", "members", "empty"])
+                if extra not in used:
+                    if extra == "flag":
+                        val = S(rng.choice([True, False]),
+                                anchor="F" + name)
+                    elif extra == "members":
+                        val = self.set_()
+                    else:
+                        val = rng.choice([M([]), L([])])
+                    items.append([S(extra), val])
         return node
 
     def sequence(self, depth):
@@ -511,10 +533,22 @@ def positions(doc):
     return out
 
 
-def escape_key(key, sep):
+def escape_key(key, sep, quote=None):
     if isinstance(key, int) and not isinstance(key, bool):
         return str(key)         # "-1" addresses the integer key -1
     text = str(key)
+    if "*" in text and not quote:
+        # a backslash does not stop an asterisk from being expanded as a
+        # wildcard: demarcation is the only spelling of a literal "*"
+        quote = '"'
+    if quote and any(ch in "\\.[]{}()&*!=~^$<>+-%\"' #" or ch == sep
+                     for ch in text):
+        # the other way to write a literal special character: demarcation
+        # (either kind of quotation mark opens a demarcation, so both are
+        # escaped inside one)
+        body = text.replace("\\", "\\\\").replace(
+            '"', '\\"').replace("'", "\\'")
+        return quote + body + quote
     out = ""
     for char in text:
         if char in "\\.[]{}()&*!=~^$<>+-%\"' #" or char == sep:
